@@ -435,7 +435,12 @@ func (e *Env) yield(site string) {
 		ip := &op.Interpose[k]
 		if ip.Site == site && ip.Nth == n {
 			for j := range ip.Steps {
-				r := e.appDo(&ip.Steps[j])
+				var r string
+				if hs, ok := harnessSteps[ip.Steps[j].K]; ok {
+					r = hs(e, &ip.Steps[j]) // a step of another simulated party (e.g. a VFS reader)
+				} else {
+					r = e.appDo(&ip.Steps[j])
+				}
 				e.event("  @%s#%d app %s -> %s", site, n, ip.Steps[j].K, r)
 				if err := e.observe("app"); err != nil && e.Res.Trouble == "" {
 					e.Res.Trouble = err.Error()
@@ -616,6 +621,10 @@ func (e *Env) execOp(op *Op) (string, bool) {
 	}
 	return "noop:unknown:" + op.Kind, false
 }
+
+// harnessSteps lets property files register interposable steps of parties other
+// than the application writer.
+var harnessSteps = map[string]func(e *Env, st *Step) string{}
 
 // extraOps lets property files register additional op kinds.
 var extraOps = map[string]func(e *Env, op *Op) (string, bool){}
